@@ -159,6 +159,31 @@ def parentorder(rc):
             guarded = any(("sorted(" in norm(t) or any("sorted(" in norm(v) for x in ast.walk(t) if isinstance(x, ast.Name) for v in dfu.get(x.id, [])))
                           for t, pol in s.conds)
             rc.ob(f"fit_update: prior table {norm(c)} used as is (guarded by an order comparison: {guarded})")
+            # the comparison must be between the sorted order and the TABLE's own column order, i.e. cpd.variables[1:]
+            # (TabularCPD.get_evidence() lists the parents reversed)
+            sdf = single_defs(fu)
+            recv = dotted(c.func.value)
+            for t, pol in s.conds:
+                tr = deep_resolve(t, sdf)
+                if not (isinstance(tr, ast.Compare) and len(tr.ops) == 1 and isinstance(tr.ops[0], (ast.Eq, ast.NotEq))):
+                    continue
+                sides = [tr.left, tr.comparators[0]]
+                srt = [x for x in sides if isinstance(x, ast.Call) and call_name(x) == "sorted"]
+                oth = [x for x in sides if x not in srt]
+                if len(srt) != 1 or len(oth) != 1:
+                    continue
+                own = peel(oth[0], ("list", "tuple"))
+                recv_e = deep_resolve(c.func.value, sdf)
+                ok_own = tm.is_(own, "__R.variables[1:]", {"__R": recv_e}) is not None
+                rev = tm.is_(own, "__R.get_evidence()", {"__R": recv_e}) is not None
+                if rev:
+                    ge = repo.func("pgmpy/factors/discrete/CPD.py", "TabularCPD.get_evidence")
+                    rev_is_reversed = any(tm.is_(r_.value, "self.variables[:0:-1]") is not None for r_ in returns_of(ge) if r_.value is not None)
+                    if rev_is_reversed:
+                        rc.fail(fu, t, "fit_update decides whether the previous table needs re-ordering by comparing the sorted parents with `get_evidence()`, which lists the parents "
+                                "REVERSED; the table's columns follow `variables[1:]` — a CPD whose parents are in reverse-sorted order keeps its table un-reordered", construct="fit_update order test on reversed list")
+                elif not ok_own:
+                    rc.fail(fu, t, f"fit_update compares the sorted parents with `{norm(own, 60)}`, not with the table's own column order `variables[1:]`", construct="fit_update order test")
             if not guarded:
                 rc.fail(fu, c, "fit_update takes the previous CPD's table in the CPD's own parent order, but the estimator lays counts out by sorted parents: "
                         "a CPD whose parents are not listed in sorted order gets its prior columns permuted", construct="fit_update prior order")
